@@ -29,9 +29,18 @@ CHECKS = {
  "C08": ("model_checking", "exhaustive enumeration of the boundary expression family x a 17-instant alphabet (around and far outside both ends of 1900..9999) x all ordered instant pairs as iteration windows, on the real code against the statement and the pointwise oracle P",
          "Every (expression, instant) and every (expression, from, to) combination of the boundary family is executed; closedness outside the range, window containment of every interval, next_change never at/after 10000-01-01 and its value from before 1900 are checked literally.",
          "P uses the real schedule_at over all 2 958 466 days. NaiveDateTime::MAX itself is left to C04.", "DESIGN.md §3 C08"),
+ "C09": ("model_checking", "exhaustive enumeration of the UTC-offset transitions of every zone of the compiled tz database (1900..2040) x instants around each x input zones x expressions on the real TzLocation evaluation, against the location-free evaluation at the wall-clock time mapped back as the statement prescribes",
+         "All 40 557 transitions of all 596 zones (thorough) or one per distinct offset/time signature (quick); every minute of T-90..T+90; state, next_change and iter_range compared with the naive evaluation; later instant on folds, first valid instant after gaps, bounds never going backwards.",
+         "Trusts chrono-tz data and offset_from_utc_datetime (UTC->local is total and unambiguous). Transitions after 2040 follow the same signatures.", "DESIGN.md §3 C09"),
  "C10": ("model_checking", "complete enumeration of country x kind x date (1990..2085) on the real decoded calendars against an independent reader of the source text files; all [A-Za-z]{0,3} codes; PH/SH selectors through the real evaluator",
          "Exhaustive over a finite domain that strictly contains the data (1999..2075): every country, both calendars, every date, every short code string. Decides the property for the embedded data as built from the working tree.",
          "Trusts the source text files as ground truth, chrono date arithmetic, and flate2/LazyLock as used by the crate.", "DESIGN.md §3 C10"),
+ "C11": ("exploration", "grid enumeration of coordinates x every day of 1900..2100 x events on the real sun-event and evaluation code against ordering/independent-solar-noon relations; complete enumeration of an IEEE-754 boundary set for coordinate acceptance; every date of the supported range for the coordinate-free defaults",
+         "Floating-point coordinates are not finitely enumerable, hence level exploration: exhaustive over the stated grid, named points and date range only.",
+         "The sunrise crate's astronomy is trusted up to the stated sanity relations; tzf-rs polygons up to a 6.5 h plausibility bound.", "DESIGN.md §3 C11"),
+ "C12": ("model_checking", "exhaustive enumeration of the Python constructor-argument product (2688 combinations per expression) x expressions x datetimes x methods on the real extension module under CPython, differential against the Rust core evaluating the documented equivalent context",
+         "Every constructor combination is executed in CPython and every observed value, zone, None and exception class is compared with the core; also validate/str/repr round trips (C06's Python clause).",
+         "CPython 3.11 + its zoneinfo; nonexistent aware datetimes only checked for panics; one under-documented argument combination accepts two readings.", "DESIGN.md §3 C12"),
  "C13": ("model_checking", "bounded exhaustive enumeration of the normalisation family on the real normalize(): idempotence, determinism across clones/reparses/equal spellings, and printability of the normal form",
          "normalize(normalize(e)) == normalize(e) by AST equality for every expression of N, E2, E1 and the corpus; equal ASTs reached through different spellings normalise equally; the normal form round-trips by C06's criterion.",
          "Bounded by the family.", "DESIGN.md §3 C13"),
